@@ -918,7 +918,8 @@ def main():
     rep.cov["rule"] = ("cases = corpus + seeded random clock trees (1-3 roots, 0-3 derived clocks; frequencies p/q or MHz-range; trigger R/F/both; "
                        "reset sync/async/none x active high/low; initializeRegs on/off; minResetTime/minResetCycles; shared pins with opposite edge; "
                        "clocks created through the frontend with random subsets of the optional ClockConfig fields left unset = inherited, effective attributes read back) x "
-                       "register networks (counters, shift rings, xor feedback, cross-domain copies through Node_CDC, enables from pins/register bits/constants incl. X) x "
+                       "register networks (counters, shift rings, xor feedback, cross-domain copies through Node_CDC, enables from pins/register bits/constants incl. X, "
+                       "registers made by the frontend's reg() under nested ENIF/IF/ELSE/ENALWAYS scopes of depth 0..4) x "
                        "process stimulus and injected reset events on a quarter-period grid; non-trivial = at least two registers change value after power-on and "
                        "(two clock pins toggle or one pin drives domains with different trigger edges); distinct = different implementation log")
     rep.cov["traces_validated_against_impl"] = len(cases) - len(mism_model) if drv else 0
